@@ -1,4 +1,5 @@
 import GSProofs.Lemmas.ReqLifeErr
+import GSProofs.Lemmas.ReqLifeLive
 import GS.Temporal
 /-!
 # C04 — Every request's result channels terminate with the right outcome
@@ -93,7 +94,7 @@ theorem closed_iff_done {s : State} (h : Reachable s) :
 theorem cancel_message_iff_live (s : State) (api : Bool) :
     (handle s (.cancel api)).outbox =
       if s.reg = .live then s.outbox ++ [{ kind := .cancel, peer := s.peer }] else s.outbox := by
-  simp only [handle, cancelOnError, terminate, finishTerminate]
+  simp only [handle, cancelLive, hookCancel, ingest, procTerminations, cancelOnError, terminate, finishTerminate]
   (repeat' split) <;> simp_all
 
 /-- every message the requestor ever sends for this request goes to the request's own peer. -/
@@ -104,7 +105,7 @@ theorem outbox_own_peer {s : State} (h : Reachable s) : ∀ o ∈ s.outbox, o.pe
     `RequestClientCancelledErr` as its terminal error (first cause wins: `cancelOnError` keeps an earlier one). -/
 theorem cancel_api_records_cc (s : State) (hl : s.reg = .live) :
     (handle s (.cancel true)).termErr = (if s.termErr.isNone then some Err.cc else s.termErr) := by
-  simp only [handle, cancelOnError, terminate, finishTerminate]
+  simp only [handle, cancelLive, hookCancel, ingest, procTerminations, cancelOnError, terminate, finishTerminate]
   (repeat' split) <;> simp_all
 
 /-- **cancel_outcome (API).**  *"Caller cancellation yields a client-cancelled error"*: if the request's
@@ -211,7 +212,7 @@ theorem failure_records_asError (s : State) (c items : Nat) (hl : s.reg = .live)
   obtain ⟨k, hk⟩ := Option.isSome_iff_exists.mp hs
   refine ⟨k, hk, ?_⟩
   have hl1 : (s.reg == .live) = true := by simpa using hl
-  simp only [handle, hl1, beq_self_eq_true, Bool.and_self, Bool.and_false, Bool.false_eq_true, if_false, ite_self,
+  simp only [handle, cancelLive, hookCancel, ingest, procTerminations, hl1, beq_self_eq_true, Bool.and_self, Bool.and_false, Bool.false_eq_true, if_false, ite_self,
     Bool.not_true, ht, hf, if_true, hk, Option.map_some]
   (repeat' split) <;> simp [cancelOnError_termErr, hn]
 
@@ -265,5 +266,73 @@ theorem failure_outcome_ctx_counterexample :
       (sends s.retE).count (Err.status .RequestFailedBusyErr) = 0 :=
   ⟨_, reachable_of_trace (p := 0) (e := 10) (t := 10) (acts := failureLostTrace) (by decide), by decide, by decide,
     by decide⟩
+
+/-! ## Liveness: `terminates`
+
+*"Once the responder sends a terminal status for a request, or the caller cancels it through its context
+or the cancel API, both channels returned for it are eventually closed provided the caller keeps reading
+them."*
+
+Executions are infinite sequences of states, each position a stutter or one action of `step`
+(`GS.Temporal.Exec`).  Fairness (`GroupFair`): each PROCESS GROUP that stays enabled eventually takes a
+step -- the manager loop, the worker/executor, the progress collector and the error collector (their
+deliver actions are the caller reading the returned channels: "the caller keeps reading"), and two
+explicit obligations of the environment without which the sentence is not meant:
+`oblUnpause` (a request that is paused -- and not cancelled -- is eventually resumed by its user) and
+`oblAnswer` (a responder that has sent a terminal status answers a request that is re-issued after a
+pause with a terminal status again).  Environment inputs are never forced; there are finitely many of
+them (`efuel`), and the traversal is finite (`tfuel`).
+
+PARTIAL BY NATURE (stated in the manifest): this is a theorem about the model's interleaving semantics.
+Fairness of the Go scheduler / of `select`, pre-emption inside a step the model treats as atomic, real
+timers and a full mailbox are not modelled; on the real code the clause is checked by the harness'
+quiescence watchdog on sampled schedules only. -/
+
+/-- the variant used by the proof (executor phase, remaining traversal, queued remote items, buffered
+    progress items and errors, mailbox, pending obligations, remaining inputs) strictly decreases with
+    EVERY step, internal or environmental. -/
+theorem variant_decreases {s s' : State} {a : Action} (h : step s a = some s') : V s' < V s :=
+  var_step_lt h
+
+/-- no deadlock: while the trigger holds and not both channels are closed, some internal action can move. -/
+theorem no_deadlock {s : State} (h : Reachable s) (ht : Triggered s) (hq : bothClosed s = false) :
+    ∃ a, a.fair = true ∧ (step s a).isSome = true :=
+  progress (reachable_inv h).1 ht hq
+
+/-- **terminates.**  On every execution from an initial state that is weakly fair for every process
+    group: (terminal status sent by the request's own peer ∨ `CancelRequest` called ∨ caller context
+    cancelled) leads to both returned channels closed. -/
+theorem terminates (σ : Nat → State) (h0 : ∃ p e t, σ 0 = init p e t) (hex : GS.Temporal.Exec sys σ)
+    (hfair : GroupFair σ) :
+    GS.Temporal.LeadsTo σ Triggered (fun s => bothClosed s = true) := by
+  intro i ht
+  have hinv : Inv (σ i) := (reachable_inv (exec_reachable h0 hex i)).1
+  exact GS.Temporal.leadsTo_of_variant (variantRule repairs_present.1 repairs_present.2) hex
+    (wfAll_of_groupFair hex hfair) i ⟨hinv, ht⟩
+
+/-- the liveness clause is FALSE without the first repair (fdbd2df): with the guard of releaseRequestTask
+    being just `ok`, a request cancelled while its executor is stopping for a pause ends up Paused with its
+    context cancelled -- a state in which (with the caller's obligations exhausted: cancelled requests are
+    not resumed) nothing can move and the channels stay open.  The invariant conjunct `pz` excludes exactly
+    that state; it is provable only for the repaired guard. -/
+theorem paused_and_cancelled_unreachable {s : State} (h : Reachable s) (hl : s.reg = .live)
+    (hc : s.ctxDone = true) (hm : s.mphase = .idle) : s.rstate = .running :=
+  (reachable_inv h).1.pz hl hc hm
+
+/-- likewise for the second repair (2477c67): a cancelled request never has its loader online, so its
+    executor is never left waiting for the remote. -/
+theorem cancelled_never_online {s : State} (h : Reachable s) (hl : s.reg = .live) (hc : s.ctxDone = true) :
+    s.online = false :=
+  (reachable_inv h).1.o1 hl hc
+
+/-- non-vacuity of `terminates`: a concrete fair-looking prefix in which the trigger (terminal success
+    status) holds from the 10th step on and both channels get closed. -/
+def successTrace : List Action :=
+  [.envNew, .mgr, .wPop, .wGet, .mgr, .xTop, .xWaitLocal, .xRead false 0 false, .xSendReq,
+   .envResp 0 20 1 false, .mgr, .xWaitRemote true 2 false, .cpRecv, .cpRecv, .cpDeliver, .cpDeliver, .xHook .ok,
+   .xTop, .mgr, .cpSeeClose, .cpExit, .ceSeeClose, .ceExit]
+
+example : ((run (init 0 10 10) successTrace).map fun s => (s.termSent, bothClosed s, s.retP.length, sends s.retE)) =
+    some (true, true, 3, []) := by decide
 
 end GS.C04
